@@ -40,7 +40,7 @@ def gen_cases(ctx):
     rng = ctx.grng("c04")
     olds = [
         {"a": 1}, {"a": 1.0}, {"a": "1", "b": 0}, {"a": 1, "b": True, "c": "x"}, {"n": {"x": 1}, "a": 1},
-        {"n": [1, 2]}, {"b": 1, "c": "y é"}, {},
+        {"n": [1, 2]}, {"b": 1, "c": "y é"}, {}, {"a": 1, "c": None}, {"c": "", "b": 0},
     ]
     combos = list(itertools.product(range(len(olds)), ROUTES, DESTS, PAYLOADS, PROVS))
     rng.shuffle(combos)
